@@ -90,16 +90,19 @@ let dump_pts pts = String.concat "" (List.map (fun (x, y) -> " " ^ zs x ^ " " ^ 
 let endn = function EFlush -> "0" | ERound -> "1" | EHalf -> "2" | EExt -> "3"
 let b01 b = if b then "1" else "0"
 
+(* layer / type: gdstk keeps the sign-extended 16-bit field in an unsigned 32-bit half of the tag *)
+let tagz (z : z) : string = let i = int_of_z z in string_of_int (if i < 0 then i + 4294967296 else i)
+
 let dump_lib (l : glib) : string =
   let b = Buffer.create 1024 in
   Buffer.add_string b ("LIB " ^ bytes_to_hexs l.g_name);
   List.iter (fun c ->
     Buffer.add_string b (" CELL " ^ bytes_to_hexs c.c_name);
-    List.iter (fun p -> Buffer.add_string b (" P " ^ zs p.p_layer ^ " " ^ zs p.p_type ^ " " ^ string_of_int (List.length p.p_pts) ^
+    List.iter (fun p -> Buffer.add_string b (" P " ^ tagz p.p_layer ^ " " ^ tagz p.p_type ^ " " ^ string_of_int (List.length p.p_pts) ^
                                             dump_pts p.p_pts ^ dump_props p.p_props)) c.c_polys;
     List.iter (fun h ->
       let (e0, e1) = (match h.h_end with EExt -> h.h_ext | _ -> (Z0, Z0)) in
-      Buffer.add_string b (" H " ^ zs h.h_layer ^ " " ^ zs h.h_type ^ " " ^ endn h.h_end ^ " " ^ zs h.h_width ^ " " ^
+      Buffer.add_string b (" H " ^ tagz h.h_layer ^ " " ^ tagz h.h_type ^ " " ^ endn h.h_end ^ " " ^ zs h.h_width ^ " " ^
                            b01 h.h_scale_width ^ " " ^ zs e0 ^ " " ^ zs e1 ^ " " ^
                            string_of_int (List.length h.h_pts) ^ dump_pts h.h_pts ^ dump_props h.h_props)) c.c_paths;
     List.iter (fun r ->
@@ -112,7 +115,7 @@ let dump_lib (l : glib) : string =
                            zs (real_scaled r.r_mag) ^ " " ^ zs (real_scaled r.r_rot) ^ " " ^ rep ^ dump_props r.r_props)) c.c_refs;
     List.iter (fun t ->
       let (x, y) = t.l_origin in
-      Buffer.add_string b (" T " ^ zs t.l_layer ^ " " ^ zs t.l_type ^ " " ^ bytes_to_hexs t.l_text ^ " " ^ zs x ^ " " ^ zs y ^ " " ^
+      Buffer.add_string b (" T " ^ tagz t.l_layer ^ " " ^ tagz t.l_type ^ " " ^ bytes_to_hexs t.l_text ^ " " ^ zs x ^ " " ^ zs y ^ " " ^
                            string_of_int (int_of_n t.l_anchor) ^ " " ^ b01 t.l_refl ^ " " ^ zs (real_scaled t.l_mag) ^ " " ^
                            zs (real_scaled t.l_rot) ^ dump_props t.l_props)) c.c_labels) l.g_cells;
   Buffer.contents b
@@ -147,6 +150,15 @@ let () =
         (match spec_decode bs with
          | Some l -> out id "S" (dump_lib l)
          | None -> out id "S" "REJECTED-BY-STRICT-DECODER")
+    | "mal" ->
+        (* damaged streams: the reader model must predict the real reader; the grammar speaks only when it accepts *)
+        let bs = bytes_of_hex payload in
+        (match read_gds_model None bs with
+         | Ok l -> out id "M" (dump_lib l)
+         | o -> out id "M" (status o));
+        (match spec_decode bs with
+         | Some l -> out id "S" (dump_lib l)
+         | None -> ())
     | "filter" ->
         (match words payload with
          | [tags; hx] ->
